@@ -296,7 +296,11 @@ def make_case(dag, cid, base, special, rnd, virtual_root=False):
             os.makedirs(os.path.join(d, dirname[x]), exist_ok=True)
     pre = dag.get("pre", [])
     for f in pre:
-        clang_args += ["-include", rel[f]]
+        # a forced include in the -I directory is named the way a build system names it: resolved through the path
+        if dag["L"]["dir"][str(f)] == "inc" and not special:
+            clang_args += ["-include", os.path.basename(rel[f])]
+        else:
+            clang_args += ["-include", rel[f]]
     if len(dag["roots"]) > 1:
         features.add("two-inputs")
     if pre:
